@@ -84,7 +84,10 @@ func vRegister(m module.Module) {
 
 // ---- alphabet ----
 var vDoms = []string{"example.org", "EXAMPLE.org", "Example.Org", "corp.example", "\u00e9a.example", "e\u0301a.example",
-	"\u0442\u0435\u0441\u0442.example", "xn--e1aybc.example", "XN--E1AYBC.example", "sub.example.org", "example.org."}
+	"\u0442\u0435\u0441\u0442.example", "xn--e1aybc.example", "XN--E1AYBC.example", "sub.example.org", "example.org.",
+	// a second IDN domain that the cases themselves only spell as U-label or lower-case A-label; the run
+	// starts with one message that spelled it XN--... (see TestVerif_C04): nothing of that may linger
+	"\u0438\u0441\u043f\u044b\u0442\u0430\u043d\u0438\u0435.example", "xn--80akhbyknj4f.example"}
 var vLocs = []string{"alice", "Alice", "bob", "postmaster", "alic\u00e9", "alice\u0301", "list"}
 
 func vDom(r *vRand) string {
@@ -113,6 +116,12 @@ func vRespell(r *vRand, a string) string {
 	case 2:
 		if strings.Contains(a, "xn--e1aybc") {
 			return strings.Replace(a, "xn--e1aybc", "\u0442\u0435\u0441\u0442", 1)
+		}
+		if strings.Contains(a, "xn--80akhbyknj4f") {
+			return strings.Replace(a, "xn--80akhbyknj4f", "\u0438\u0441\u043f\u044b\u0442\u0430\u043d\u0438\u0435", 1)
+		}
+		if strings.Contains(a, "\u0438\u0441\u043f\u044b\u0442\u0430\u043d\u0438\u0435") {
+			return strings.Replace(a, "\u0438\u0441\u043f\u044b\u0442\u0430\u043d\u0438\u0435", "xn--80akhbyknj4f", 1)
 		}
 		return strings.Replace(a, "\u0442\u0435\u0441\u0442", "xn--e1aybc", 1)
 	case 3:
@@ -430,6 +439,9 @@ func TestVerif_C04(t *testing.T) {
 	for i := 0; i < nT; i++ {
 		vRegister(&vTarget{id: i, name: fmt.Sprintf("t%d", i)})
 	}
+	// history: before anything else the process has normalised an oddly-cased spelling of an address
+	// (as an earlier message would have made it do)
+	address.ForLookup("someone@XN--80AKHBYKNJ4F.example")
 	for ci := 0; ci < n; ci++ {
 		r := vNewRand(uint64(400000 + ci))
 		// tables: tb* for source_in / destination_in (sets of keys), mt* for the modifiers
